@@ -42,8 +42,15 @@ Match(o, x) == /\ o.op = x.op /\ o.label = x.label
                     [] x.kind = "str" -> o.len = x.len /\ o.str = x.v
                     [] x.kind = "any" -> o.len = x.len
 \* the observed operations are a prefix of the script (a refused proof stops early), entry by entry
-MatchesPrefix(obs, script) == Len(obs) <= Len(script) /\ \A i \in 1..Len(obs) : Match(obs[i], script[i])
-Matches(obs, script) == Len(obs) = Len(script) /\ MatchesPrefix(obs, script)
+\* whatever the caller absorbed into its transcript before handing it over is context: the protocol's own operations
+\* start at its domain separator
+RECURSIVE DropCtx(_)
+DropCtx(obs) == IF Len(obs) <= 1 THEN obs
+                ELSE IF obs[2].op = "A" /\ obs[2].label = "dom-sep" /\ obs[2].str = DomSep THEN obs
+                ELSE DropCtx(<<obs[1]>> \o SubSeq(obs, 3, Len(obs)))
+MatchesPrefixRaw(obs, script) == Len(obs) <= Len(script) /\ \A i \in 1..Len(obs) : Match(obs[i], script[i])
+MatchesPrefix(obs, script) == MatchesPrefixRaw(DropCtx(obs), script)
+Matches(obs, script) == Len(DropCtx(obs)) = Len(script) /\ MatchesPrefix(obs, script)
 
 \* data (32-byte tokens) that must be absorbed before the c-th challenge of a proof (c = 1 is y)
 Required(mb, c) ==
